@@ -79,6 +79,14 @@ def _mutable(buf):
     return buf
 
 
+def _writable(buf):
+    """Argument of the in-place tweak_add variants: an immutable bytes object is refused
+    (never written into), as in the pure-python fallback"""
+    if isinstance(buf, bytes):
+        raise TypeError("in-place tweak needs a mutable buffer (bytearray), not bytes")
+    return _mutable(buf)
+
+
 def _find_library():
     library_path = None
     extension = ""
@@ -680,7 +688,7 @@ def ec_privkey_tweak_add(secret, tweak, context=_secp.ctx):
     if len(secret) != 32 or len(tweak) != 32:
         raise ValueError("Secret and tweak should both be 32 bytes long")
     t = _copy(tweak)
-    if _secp.secp256k1_ec_privkey_tweak_add(context, _mutable(secret), tweak) == 0:
+    if _secp.secp256k1_ec_privkey_tweak_add(context, _writable(secret), tweak) == 0:
         raise ValueError("Failed to tweak the secret")
     return None
 
@@ -693,7 +701,7 @@ def ec_pubkey_tweak_add(pub, tweak, context=_secp.ctx):
         raise ValueError("Tweak should be 32 bytes long")
     _check_pubkey(pub)
     t = _copy(tweak)
-    if _secp.secp256k1_ec_pubkey_tweak_add(context, _mutable(pub), tweak) == 0:
+    if _secp.secp256k1_ec_pubkey_tweak_add(context, _writable(pub), tweak) == 0:
         raise ValueError("Failed to tweak the public key")
     return None
 
